@@ -3,6 +3,7 @@
 # Confirms an independently written property-breaking change: applies, compiles, pinned suite passes,
 # demo fails with it and passes without it; then runs the property's check (and extras) against it.
 set -u
+HERE=$(cd "$(dirname "$0")/.." && pwd)   # the checks of THIS copy (a `vp run` snapshot works)
 pid=$1; tag=$2; demopath=$3; demorun=$4; shift 4
 out=/tmp/seed-$pid-$tag-out
 export GOFLAGS=-mod=mod GOPROXY=off GOSUMDB=off GOTOOLCHAIN=local
@@ -27,7 +28,7 @@ cp "$demo" $W/$demopath
 ( cd $W && go test ${DEMOFLAGS:-} -vet=off -count=1 -run "$demorun" ./$(dirname $demopath)/ ) > /tmp/seed-$pid-$tag-demo-mut.txt 2>&1; echo "demo with the change: exit $?" | tee -a $res
 rm $W/$demopath
 for c in $pid "$@"; do
-  VERIF_REPO=$W /verif/check $c --tier ${TIER:-quick} > /tmp/seed-$pid-$tag-check-$c.txt 2>&1; rc=$?
+  VERIF_REPO=$W "$HERE/check" $c --tier ${TIER:-quick} > /tmp/seed-$pid-$tag-check-$c.txt 2>&1; rc=$?
   echo "check $c (${TIER:-quick}): exit $rc; $(grep -c '^VIOLATION' /tmp/seed-$pid-$tag-check-$c.txt) violation lines; $(tail -1 /tmp/seed-$pid-$tag-check-$c.txt | cut -c1-160)" | tee -a $res
   grep -A2 '^VIOLATION' /tmp/seed-$pid-$tag-check-$c.txt | grep -v '^--\|VIOLATION' | head -4 | cut -c1-300 | tee -a $res
 done
